@@ -128,7 +128,8 @@ class SliceNormaliser(TracingModule):
     def trace_op(self, frame, codeobj, codenum):
         key = frame_stack_read(frame, -1)
         if type(key) is slice:
-            if key.step not in (None, 1):
+            st = key.step
+            if st is not None and not (type(st) is int and st == 1):
                 return
             if not (isinstance(key.start, SymbolicInt) or isinstance(key.stop, SymbolicInt)):
                 return
